@@ -8,6 +8,15 @@ Open Scope Z_scope.
 
 Ltac Zify.zify_post_hook ::= Z.div_mod_to_equations.
 
+Ltac list_eq tac :=
+  repeat match goal with
+  | |- _ :: _ = _ :: _ => apply f_equal2
+  | |- (_, _) = (_, _) => apply f_equal2
+  | |- asr _ ?n = asr _ ?n => apply (f_equal (fun x => asr x n))
+  | |- wrap16 _ = wrap16 _ => apply (f_equal wrap16)
+  | |- @nil _ = @nil _ => reflexivity
+  end; try reflexivity; tac.
+
 (** * lists of 16 coefficients *)
 Lemma list16 {A} (l : list A) : length l = 16%nat ->
   exists a0 a1 a2 a3 a4 a5 a6 a7 a8 a9 a10 a11 a12 a13 a14 a15,
@@ -23,7 +32,7 @@ Qed.
 Lemma go_col_eq i0 i1 i2 i3 : go_col i0 i1 i2 i3 = idct1 i0 i1 i2 i3.
 Proof.
   unfold go_col, idct1, mul1, mul2, sinpi8sqrt2, cospi8sqrt2minus1.
-  f_equal; [f_equal; [f_equal|]|]; lia.
+  list_eq lia.
 Qed.
 
 Lemma go_row_eq t0 t1 t2 t3 :
@@ -32,7 +41,7 @@ Lemma go_row_eq t0 t1 t2 t3 :
   [asr (y0 + 4) 3; asr (y1 + 4) 3; asr (y2 + 4) 3; asr (y3 + 4) 3].
 Proof.
   unfold go_row, idct1, mul1, mul2, sinpi8sqrt2, cospi8sqrt2minus1.
-  cbv zeta. repeat (apply f_equal2; [apply (f_equal (fun x => asr x 3)); lia|]). reflexivity.
+  cbv zeta beta. list_eq lia.
 Qed.
 
 Theorem go_transform_one_eq_idct : forall c, go_transform_one c = idct c.
@@ -51,13 +60,27 @@ Proof.
 Qed.
 
 (** * DC-only and three-coefficient short-cuts *)
+Lemma idct1_zero : idct1 0 0 0 0 = (0, 0, 0, 0).
+Proof. reflexivity. Qed.
+
+Lemma idct1_dc x : idct1 x 0 0 0 = (x, x, x, x).
+Proof.
+  unfold idct1. change (asr (0 * sinpi8sqrt2) 16) with 0. change (asr (0 * cospi8sqrt2minus1) 16) with 0.
+  list_eq lia.
+Qed.
+
+Lemma idct1_two x y : idct1 x y 0 0 = (x + mul1 y, x + mul2 y, x - mul2 y, x - mul1 y).
+Proof.
+  unfold idct1, mul1, mul2, sinpi8sqrt2, cospi8sqrt2minus1.
+  change (asr (0 * 35468) 16) with 0. change (asr (0 * 20091) 16) with 0.
+  list_eq lia.
+Qed.
+
 Theorem transform_dc_eq : forall dc,
   go_transform_dc (dc :: repeat 0 15) = idct (dc :: repeat 0 15).
 Proof.
-  intros dc. unfold go_transform_dc, idct, idct1, g, asr, sinpi8sqrt2, cospi8sqrt2minus1.
-  cbn [nth Nat.add app repeat].
-  change (0 * 35468) with 0. change (0 * 20091) with 0. change (0 / 2 ^ 16) with 0.
-  cbn [app]. repeat (f_equal; try lia).
+  intros dc. unfold go_transform_dc, idct, g. cbn [nth Nat.add repeat].
+  rewrite idct1_dc, idct1_zero, !idct1_dc. reflexivity.
 Qed.
 
 Theorem transform_ac3_eq : forall c0 c1 c4,
@@ -65,25 +88,26 @@ Theorem transform_ac3_eq : forall c0 c1 c4,
   go_transform_ac3 c = idct c.
 Proof.
   intros c0 c1 c4 c. subst c.
-  unfold go_transform_ac3, idct, idct1, mul1, mul2, g, asr, sinpi8sqrt2, cospi8sqrt2minus1.
-  cbn [nth Nat.add app].
-  change (0 * 35468) with 0. change (0 * 20091) with 0. change (0 / 2 ^ 16) with 0.
-  cbn [app]. repeat (f_equal; try (f_equal; lia)).
+  unfold go_transform_ac3, idct, g. cbn [nth Nat.add].
+  rewrite idct1_two, idct1_dc, idct1_zero, !idct1_two. cbv zeta beta. cbn [app].
+  list_eq lia.
 Qed.
 
 (** * WHT *)
-Theorem go_wht_eq_iwht : forall c, length c = 16%nat -> go_wht c = iwht c.
+Theorem go_wht_eq_iwht : forall c, go_wht c = iwht c.
 Proof.
-  intros c H. destruct (list16 c H) as (a0&a1&a2&a3&a4&a5&a6&a7&a8&a9&a10&a11&a12&a13&a14&a15&->).
-  unfold go_wht, iwht, iwht1, g. cbn [nth Nat.add app].
-  repeat (f_equal; try (f_equal; f_equal; lia)).
+  intros c. unfold go_wht, iwht, iwht1. cbv beta iota zeta. cbn [app].
+  list_eq lia.
 Qed.
+
+Lemma iwht1_dc x : iwht1 x 0 0 0 = (x, x, x, x).
+Proof. unfold iwht1. list_eq lia. Qed.
 
 Theorem wht_dc_only_eq : forall dc,
   go_wht_dc_only (dc :: repeat 0 15) = iwht (dc :: repeat 0 15).
 Proof.
-  intros dc. unfold go_wht_dc_only, iwht, iwht1, g. cbn [nth Nat.add app repeat].
-  repeat (f_equal; try (f_equal; f_equal; lia)).
+  intros dc. unfold go_wht_dc_only, iwht, iwht1, g. cbn [nth Nat.add repeat].
+  cbv beta iota zeta. cbn [app]. list_eq lia.
 Qed.
 
 (** * The 2-bit code never selects a short-cut that drops a coefficient.
@@ -101,7 +125,7 @@ Proof.
   rewrite rfc_zigzag_eq in Hz.
   unfold go_nz_code.
   destruct (Z.ltb_spec 3 nz) as [H3|H3].
-  { unfold go_do_transform. cbn [Z.eqb]. apply go_transform_one_eq_idct. }
+  { change (go_do_transform 3 ?c) with (go_transform_one c). apply go_transform_one_eq_idct. }
   (* positions 3..15 are zero: indices 8 5 2 3 6 9 12 13 10 7 11 14 15 *)
   assert (Z3 := Hz 3 ltac:(lia)). assert (Z4 := Hz 4 ltac:(lia)). assert (Z5 := Hz 5 ltac:(lia)).
   assert (Z6 := Hz 6 ltac:(lia)). assert (Z7 := Hz 7 ltac:(lia)). assert (Z8 := Hz 8 ltac:(lia)).
@@ -109,14 +133,104 @@ Proof.
   assert (Z12 := Hz 12 ltac:(lia)). assert (Z13 := Hz 13 ltac:(lia)). assert (Z14 := Hz 14 ltac:(lia)).
   assert (Z15 := Hz 15 ltac:(lia)).
   unfold nthZ, rfc_zigzag in Z3, Z4, Z5, Z6, Z7, Z8, Z9, Z10, Z11, Z12, Z13, Z14, Z15.
-  cbn in Z3, Z4, Z5, Z6, Z7, Z8, Z9, Z10, Z11, Z12, Z13, Z14, Z15. subst.
+  vm_compute in Z3, Z4, Z5, Z6, Z7, Z8, Z9, Z10, Z11, Z12, Z13, Z14, Z15. subst.
   destruct (Z.ltb_spec 1 nz) as [H1|H1].
-  { unfold go_do_transform. cbn [Z.eqb]. apply transform_ac3_eq. }
+  { change (go_do_transform 2 ?c) with (go_transform_ac3 c). apply transform_ac3_eq. }
   (* nz <= 1: positions 1, 2 (indices 1, 4) are zero too *)
   assert (Z1 := Hz 1 ltac:(lia)). assert (Z2 := Hz 2 ltac:(lia)).
-  unfold nthZ, rfc_zigzag in Z1, Z2. cbn in Z1, Z2. subst.
+  unfold nthZ, rfc_zigzag in Z1, Z2. vm_compute in Z1, Z2. subst.
   unfold g. cbn [nth].
   destruct (Z.eqb_spec a0 0) as [->|Hne]; cbn [negb].
-  - unfold go_do_transform. cbn [Z.eqb]. vm_compute. reflexivity.
-  - unfold go_do_transform. cbn [Z.eqb]. apply (transform_dc_eq a0).
+  - vm_compute. reflexivity.
+  - change (go_do_transform 1 ?c) with (go_transform_dc c). apply (transform_dc_eq a0).
+Qed.
+
+(** * Boolean decoder: the Go normalisation variants = the RFC loop, for every
+    range 128..255, probability 0..255 and decision.  Complete finite sweep.
+    GetSigned / fastSigned ("shift is always 1") is exact except in the state
+    range = 255, which exists only before the first bool of a partition (the
+    last conjunct: no step ever produces range 255) - and the first bool of a
+    partition is never read with GetSigned. *)
+From WebpGen Require Tables.
+
+Lemma triple_eqb_eq a b : triple_eqb a b = true -> a = b.
+Proof.
+  destruct a as [[a1 a2] a3], b as [[b1 b2] b3]. unfold triple_eqb.
+  rewrite !andb_true_iff, !Z.eqb_eq. intros [[-> ->] ->]. reflexivity.
+Qed.
+
+Definition bool_case_ok (R p : Z) (b : bool) : bool :=
+  triple_eqb (rfc_step R p b) (go_getbit_step R p b) &&
+  triple_eqb (rfc_step R p b)
+    (go_lut_step WebpGen.Tables.lossy_kVP8Log2Range WebpGen.Tables.lossy_kVP8NewRange R p b) &&
+  triple_eqb (rfc_step R p b)
+    (go_lut_step WebpGen.Tables.bitio_kVP8Log2Range WebpGen.Tables.bitio_kVP8NewRange R p b) &&
+  (negb (p =? 128) || (R =? 255) || triple_eqb (rfc_step R p b) (go_signed_step R b)) &&
+  negb (snd (fst (rfc_step R p b)) =? 255).
+
+Lemma bool_sweep_ok :
+  forallb (fun R => forallb (fun p => bool_case_ok R p false && bool_case_ok R p true)
+                            (zrange 0 256)) (zrange 128 128) = true.
+Proof. vm_compute. reflexivity. Qed.
+
+Theorem bool_variants_agree : forall R p b, 128 <= R <= 255 -> 0 <= p <= 255 ->
+  go_getbit_step R p b = rfc_step R p b /\
+  go_lut_step WebpGen.Tables.lossy_kVP8Log2Range WebpGen.Tables.lossy_kVP8NewRange R p b = rfc_step R p b /\
+  go_lut_step WebpGen.Tables.bitio_kVP8Log2Range WebpGen.Tables.bitio_kVP8NewRange R p b = rfc_step R p b /\
+  (p = 128 -> R <> 255 -> go_signed_step R b = rfc_step R p b) /\
+  snd (fst (rfc_step R p b)) <> 255.
+Proof.
+  intros R p b HR Hp.
+  pose proof bool_sweep_ok as H.
+  assert (HR' : In R (zrange 128 128)) by (apply in_zrange; lia).
+  assert (Hp' : In p (zrange 0 256)) by (apply in_zrange; lia).
+  pose proof (proj1 (forallb_forall _ _) H R HR') as H1'. cbv beta in H1'.
+  pose proof (proj1 (forallb_forall _ _) H1' p Hp') as H2'. cbv beta in H2'.
+  clear H H1'. rename H2' into H.
+  apply andb_true_iff in H. destruct H as [Hf Ht].
+  assert (Hb : bool_case_ok R p b = true) by (destruct b; assumption).
+  unfold bool_case_ok in Hb. rewrite !andb_true_iff in Hb. destruct Hb as [[[[H1 H2] H3] H4] H5].
+  apply triple_eqb_eq in H1, H2, H3.
+  repeat split; try congruence.
+  - intros -> HR255. change (negb (128 =? 128)) with false in H4. cbn [orb] in H4.
+    apply orb_true_iff in H4. destruct H4 as [H4|H4]; [apply Z.eqb_eq in H4; lia|].
+    apply triple_eqb_eq in H4. congruence.
+  - apply negb_true_iff in H5. apply Z.eqb_neq in H5. exact H5.
+Qed.
+
+(** * Dequantisation factors: ParseQuant = 14.1, for every quantiser index and every delta *)
+Lemma clampz_range lo hi x : lo <= hi -> lo <= clampz lo hi x <= hi.
+Proof. intros H. unfold clampz. destruct (x <? lo) eqn:E1; [lia|]. destruct (hi <? x) eqn:E2; lia. Qed.
+
+Definition y2ac_ok (j : Z) : bool :=
+  let a := nthZ ac_table j 0 in
+  let g := asr (a * 101581) 16 in
+  (if g <? 8 then 8 else g) =? Z.max 8 (a * 155 / 100).
+Definition uvdc_ok (j : Z) : bool :=
+  Z.min 132 (nthZ dc_table j 0) =? nthZ dc_table (Z.min j 117) 0.
+
+Lemma dq_sweep_ok : forallb (fun j => y2ac_ok j && uvdc_ok j) (zrange 0 128) = true.
+Proof. vm_compute. reflexivity. Qed.
+
+Theorem dequant_matrix_eq : forall qh q, go_dq qh q = dq_of qh q.
+Proof.
+  intros qh q. unfold go_dq, dq_of, qidx.
+  change go_clip with (fun v m => clampz 0 m v). cbv beta.
+  pose proof dq_sweep_ok as H.
+  f_equal.
+  - apply Z.mul_comm.
+  - set (j := clampz 0 127 (q + q_y2ac qh)).
+    assert (Hr : 0 <= j <= 127) by (apply clampz_range; lia).
+    assert (Hin : In j (zrange 0 128)) by (apply in_zrange; lia).
+    pose proof (proj1 (forallb_forall _ _) H j Hin) as Hj. cbv beta in Hj.
+    apply andb_true_iff in Hj. destruct Hj as [Hj _]. unfold y2ac_ok in Hj. cbv zeta in Hj.
+    apply Z.eqb_eq in Hj. exact Hj.
+  - set (j := clampz 0 127 (q + q_uvdc qh)).
+    assert (Hr : 0 <= j <= 127) by (apply clampz_range; lia).
+    assert (Hin : In j (zrange 0 128)) by (apply in_zrange; lia).
+    pose proof (proj1 (forallb_forall _ _) H j Hin) as Hj. cbv beta in Hj.
+    apply andb_true_iff in Hj. destruct Hj as [_ Hj]. unfold uvdc_ok in Hj.
+    apply Z.eqb_eq in Hj. rewrite Hj. f_equal.
+    subst j. unfold clampz. destruct (q + q_uvdc qh <? 0) eqn:E1; [lia|].
+    destruct (127 <? q + q_uvdc qh) eqn:E2; destruct (117 <? q + q_uvdc qh) eqn:E3; lia.
 Qed.
